@@ -183,3 +183,49 @@ def _(c):
         c.scenario(f"{ua}->{ub}", (lambda ua, ub: lambda b: dict(args=[b.new(FT, b.real("v"), ua), ub, env_with_unit(b)], env=dict(us=b.glob(US), ut=b.glob(UT))))(ua, ub))
     c.raises("True", label="refused")
     c.on_raise("gkeys(us, ut) == old(gkeys(us, ut))", "global-tables-as-before-the-scope-although-the-body-raised")
+
+
+# ---- C16: a value of lower rank than declared is outside the declared dimensions ----------------------------------------------------
+@contract("dip/nodes/node_base.py::BaseNode.cast_value", ["C16"], name="BaseNode.cast_value[dimension-rank]")
+def _(c):
+    c.bound = "1-D values of 1-3 elements given to nodes declared with two or three dimensions (bounds symbolic)"
+    for n in (1, 2, 3):
+        for rank in (2, 3):
+            def pre(b, n=n, rank=rank):
+                dims = [(b.int(f"lo{d}"), b.int(f"hi{d}")) for d in range(rank)]
+                node = b.obj(FN, code="x", name="x", keyword="float", units_raw=None, precision=64, options=b.list([]), value=None, value_slice=None, dtype_prop=b.list([None]),
+                             value_raw="[" + ",".join(str(i + 1) for i in range(n)) + "]", dimension=b.list(dims))
+                return dict(args=[node])
+            c.scenario(f"n{n}-declared-rank-{rank}", pre)
+    c.raises("True", label="refused-whatever-the-bounds")
+    c.modifies()
+
+
+# ---- C13: integer literals are the integers written, digit for digit ---------------------------------------------------------------
+@contract("dip/nodes/node_base.py::BaseNode.cast_value", ["C13"], name="BaseNode.cast_value[integer-literals]")
+def _(c):
+    c.bound = "the listed literals (small, negative, beyond 2**53, leading zero)"
+    for lit in ["0", "7", "-42", "1302", "9007199254740993", "-12345678901234567", "18446744073709551615", "007"]:
+        def pre(b, lit=lit):
+            node = b.obj(IN, code="x", name="x", keyword="int", units_raw=None, precision=64, unsigned=False, options=b.list([]), value=None, value_slice=None, dtype_prop=b.list([None]),
+                         value_raw=lit, dimension=b.list([]))
+            return dict(args=[node], env=dict(want=int(lit)))
+        c.scenario(lit, pre)
+    c.ensures("result == want", "the-integer-written")
+    c.no_raise()
+    c.modifies()
+
+
+# ---- C13: nodes produced by one line enter the queue in the order the line gives them ---------------------------------------------------
+@contract(NL + ".prepend", ["C13"], name="NodeList.prepend")
+def _(c):
+    def pre(b):
+        return dict(args=[b.obj(NL, nodes=b.seq("ys", "int")), b.seq("xs", "int")])
+    c.scenario("lists-of-any-length", pre)
+    for k, m in ((0, 2), (1, 0), (2, 3), (3, 1)):
+        def pre_n(b, k=k, m=m):
+            return dict(args=[b.obj(NL, nodes=b.list([b.int(f"y{i}") for i in range(m)])), b.list([b.int(f"x{i}") for i in range(k)])])
+        c.scenario(f"{k}-in-front-of-{m}", pre_n)
+    c.ensures("list(self.nodes) == list(nodes) + old(list(self.nodes))", "given-order-in-front-of-the-queue")
+    c.ensures("list(nodes) == old(list(nodes))", "argument-unchanged")
+    c.no_raise()
